@@ -256,6 +256,44 @@ def views_of(p, kind):
     return out
 
 
+def check_views(p, kind, nrows, k, after):
+    """observations of every exposed (array, index) pair and the in-range / shape clauses on them"""
+    import numpy
+    views, fails = [], []
+    for tag, d, ix in views_of(p, kind):
+        if d is None or ix is None:
+            fails.append({'clause': 'shape', 'defect': 'half-view' + after, 'site': kind, 'got': 'tag%d' % tag,
+                          'detail': 'array/index pair incomplete for view tag %d' % tag})
+            continue
+        d = numpy.asarray(d)
+        ix = numpy.asarray(ix)
+        views.append([tag, int(d.shape[0]), int(d.shape[1]) if d.ndim == 2 else 0, [int(x) for x in ix.shape],
+                      [int(x) for x in ix.flatten().tolist()]])
+        # clause: documented shapes
+        want_shape = (nrows, k) if k > 1 else (nrows,)
+        want_comp = 2 if tag == 2 else 3
+        if tuple(ix.shape) != want_shape:
+            fails.append({'clause': 'shape', 'defect': 'index-shape' + after, 'site': kind, 'got': 'tag%d' % tag,
+                          'detail': 'index array of view %d has shape %r, documented %r' % (tag, tuple(ix.shape), want_shape)})
+        if d.ndim != 2 or d.shape[1] != want_comp:
+            fails.append({'clause': 'shape', 'defect': 'data-shape' + after, 'site': kind, 'got': 'tag%d' % tag,
+                          'detail': 'data array of view %d has shape %r, documented (N, %d)' % (tag, tuple(d.shape), want_comp)})
+        # clause: every entry is a valid position, so source[index] never fails
+        flat = ix.flatten()
+        if flat.size and (int(flat.max()) >= d.shape[0] or int(flat.min()) < 0):
+            fails.append({'clause': 'in-range', 'defect': 'index-beyond-source' + after, 'site': kind, 'got': 'tag%d' % tag,
+                          'detail': 'view %d: index max %d but the array has %d rows' % (tag, int(flat.max()), d.shape[0])})
+        else:
+            try:
+                sel = d[ix]
+                if sel.shape[:ix.ndim] != ix.shape:
+                    raise IndexError('selection has shape %r' % (sel.shape,))
+            except Exception as e:  # noqa
+                fails.append({'clause': 'in-range', 'defect': 'selection-raises' + after, 'site': kind, 'got': 'tag%d' % tag,
+                              'detail': 'source[index] raised %r for view %d' % (e, tag)})
+    return views, fails
+
+
 def run_case(case):
     import numpy
     import collada.common as cc
@@ -291,44 +329,22 @@ def run_case(case):
     # ---- accepted: observe and evaluate the clauses
     k = KK[kind]
     nrows = len(p.index)
-    views = []
-    for tag, d, ix in views_of(p, kind):
-        if d is None or ix is None:
-            fails.append({'clause': 'shape', 'defect': 'half-view', 'site': kind, 'got': 'tag%d' % tag,
-                          'detail': 'array/index pair incomplete for view tag %d' % tag})
-            continue
-        d = numpy.asarray(d)
-        ix = numpy.asarray(ix)
-        views.append([tag, int(d.shape[0]), int(d.shape[1]) if d.ndim == 2 else 0, [int(x) for x in ix.shape],
-                      [int(x) for x in ix.flatten().tolist()]])
-        # clause: documented shapes
-        want_shape = (nrows, k) if k > 1 else (nrows,)
-        want_comp = 2 if tag == 2 else 3
-        if tuple(ix.shape) != want_shape:
-            fails.append({'clause': 'shape', 'defect': 'index-shape', 'site': kind, 'got': 'tag%d' % tag,
-                          'detail': 'index array of view %d has shape %r, documented %r' % (tag, tuple(ix.shape), want_shape)})
-        if d.ndim != 2 or d.shape[1] != want_comp:
-            fails.append({'clause': 'shape', 'defect': 'data-shape', 'site': kind, 'got': 'tag%d' % tag,
-                          'detail': 'data array of view %d has shape %r, documented (N, %d)' % (tag, tuple(d.shape), want_comp)})
-        # clause: every entry is a valid position, so source[index] never fails
-        flat = ix.flatten()
-        if flat.size and (int(flat.max()) >= d.shape[0] or int(flat.min()) < 0):
-            fails.append({'clause': 'in-range', 'defect': 'index-beyond-source', 'site': kind, 'got': 'tag%d' % tag,
-                          'detail': 'view %d: index max %d but the array has %d rows' % (tag, int(flat.max()), d.shape[0])})
-        else:
-            try:
-                sel = d[ix]
-                if sel.shape[:ix.ndim] != ix.shape:
-                    raise IndexError('selection has shape %r' % (sel.shape,))
-            except Exception as e:  # noqa
-                fails.append({'clause': 'in-range', 'defect': 'selection-raises', 'site': kind, 'got': 'tag%d' % tag,
-                              'detail': 'source[index] raised %r for view %d' % (e, tag)})
+    views, vf = check_views(p, kind, nrows, k, '')
+    fails += vf
     if k == 1:
         nv = int(sum(int(x) for x in p.vcounts))
         if nv != nrows:
             fails.append({'clause': 'shape', 'defect': 'vcount-vs-rows', 'site': kind, 'got': 'accepted',
                           'detail': 'vcounts sum to %d but the index arrays have %d rows' % (nv, nrows)})
     acc = [int(p.nindices), int(nrows), int(len(p)), views]
+    if kind == 'tri' and nrows > 0:
+        # the public mutators that install new views: the clauses must hold for the views as they are now
+        for step in ('generateNormals', 'generateTexTangentsAndBinormals'):
+            try:
+                getattr(p, step)()
+            except Exception:  # noqa  (e.g. no texcoords: not this property's subject)
+                continue
+            fails += check_views(p, kind, nrows, k, '-after-' + step)[1]
     return {'code': 0, 'acc': acc, 'fails': fails, 'bad': bad}
 
 
